@@ -147,9 +147,12 @@ class Ctx:
         if not gens:
             return
         with Lock("lean"):
-            rc, out = sh([sys.executable, os.path.join(ROOT, "tools", "translate.py")] + gens, cwd=ROOT)
+            # every generator runs (theorem modules may import tables of other properties); only this property's
+            # generators count as its obligations
+            rc, out = sh([sys.executable, os.path.join(ROOT, "tools", "translate.py")], cwd=ROOT)
         try:
-            self.gen_status = json.loads(out.strip().splitlines()[-1])
+            allst = json.loads(out.strip().splitlines()[-1])
+            self.gen_status = {g: allst.get(g, {"ok": False, "error": "unknown generator"}) for g in gens}
         except Exception:
             self.gen_status = {g: {"ok": False, "error": "translator crashed: " + out[-300:]} for g in gens}
         for g, st in self.gen_status.items():
